@@ -790,7 +790,7 @@ func init() {
 	stub := []string{"subscriber (MessageWriter) with injected Send/Flush failure", "clock behind ValidReplayer.Now"}
 	register(&World{
 		Name: "replayer", Level: "exploration",
-		Rule: "each evaluation draws a FiniteReplayer configuration (capacity 2..8, ID mode) and a history of up to 40 Put (valid / invalid) and Replay operations (presented ID: oldest, middle, newest, evicted, never issued incl. non-canonical numerals, unset; topic sets; k-th Send or the Flush failing), stepped in lockstep with a slice-based bounded-FIFO model. " +
+		Rule: "each evaluation draws a FiniteReplayer configuration (capacity 2..8, sometimes 15-33, one run in 80 257-999 filled twice over; ID mode) and a history of up to 40 (one run in 25: 400) Put (valid / invalid; manual IDs may cycle so that a Put reuses the ID of the event it evicts; with automatic IDs the caller may go on using its Message) and Replay operations (presented ID: oldest, middle, newest, evicted, never issued incl. non-canonical and huge numerals, unset; topic sets incl. repeated topics, prefixes of one shared array, the slice object of the previous Replay, one run in 20 up to 90 topics out of a hundred; k-th Send or the Flush failing, also with sentinel-matching errors), stepped in lockstep with a slice-based bounded-FIFO model. " +
 			"Non-trivial: at least one accepted Put and three operations; distinct = distinct (configuration, operation history with results).",
 		Real: real, Stub: stub,
 		Assumptions: []string{"single caller (the type is documented as not thread-safe; concurrent use through Joe is C04's)", "automatic IDs presented as non-canonical numerals (\"05\", \"+5\") count as never issued"},
@@ -799,7 +799,7 @@ func init() {
 	}, "C08")
 	register(&World{
 		Name: "replayer", Level: "exploration",
-		Rule: "each evaluation draws a ValidReplayer configuration (TTL, GCInterval 0 / default / smaller / larger than TTL, ID mode) and a history of up to 60 Put / Replay / GC / clock-advance operations (advances 0, < TTL, = TTL, > TTL), stepped in lockstep with an expiring-FIFO model on the world's clock. " +
+		Rule: "each evaluation draws a ValidReplayer configuration (TTL incl. 250 years and MaxInt64, GCInterval 0 / default / smaller / larger than TTL and changed during the history, ID mode) and a history of up to 60 (one run in 25: 400) Put / Replay / GC / clock-advance operations (advances 0, < TTL, = TTL, > TTL, to an expiry boundary; the same Put and Replay variety as for C08), stepped in lockstep with an expiring-FIFO model on the world's clock. " +
 			"Non-trivial: at least one accepted Put and three operations; distinct = distinct (configuration, operation history with results).",
 		Real: real, Stub: stub,
 		Assumptions: []string{"single caller", "non-decreasing clock", "IDs of expired or collected events and never-issued IDs are left unconstrained here (C04 decides never-issued IDs through Joe)"},
